@@ -45,13 +45,17 @@ MCArgs(name, h, dep) ==
          {[fn |-> f, n |-> n] : f \in Fns, n \in 1..MemoN} \ {[fn |-> f, n |-> 1] : f \in {"nodes_closed", "w_closed"}}
     [] name = "GeoLength" -> {[curve |-> c] : c \in {x \in Lines : Mine(h, x)}}
     [] name = "GeoProject" ->
-         {[curve |-> c, px |-> q[1], py |-> q[2]] : c \in {x \in Lines : Mine(h, x)}, q \in QueryPts}
-         \cup {[curve |-> c, px |-> Q(x, 2), py |-> Q(y, 2)] : c \in {x \in Zigzags \cup (IF GeoRich THEN GridSegs ELSE {}) : Mine(h, x)},
+         UNION {{[curve |-> c, px |-> q[1], py |-> q[2], elev |-> e] : q \in QueryPts,
+                                                                e \in (IF Len(c.X) = 2 THEN {0, 1} ELSE {0})}
+                : c \in {x \in Lines : Mine(h, x)}}
+         \cup {[curve |-> c, px |-> Q(x, 2), py |-> Q(y, 2), elev |-> 0] : c \in {x \in Zigzags \cup (IF GeoRich THEN GridSegs ELSE {}) : Mine(h, x)},
                                                                   x \in {-9, -4, 0, 1, 5, 8}, y \in {-7, -2, 0, 3, 6}}
     [] name = "GeoIntersect" ->
-         {[A |-> A, B |-> B] : A \in {x \in Lines : Mine(h, x)}, B \in {x \in Others \cup Lines : TRUE}}
-         \cup {[A |-> A, B |-> B] : A \in {x \in GridSegs : Mine(h, x)}, B \in GridSegs}
-         \cup {[A |-> A, B |-> B] : A \in {x \in Zigzags : Mine(h, x)}, B \in GridSegs \cup Zigzags}
+         UNION {{[A |-> A, B |-> B, elev |-> e] : B \in {x \in Others \cup Lines : TRUE},
+                                            e \in (IF Len(A.X) = 2 THEN {0, 1} ELSE {0})}
+                : A \in {x \in Lines : Mine(h, x)}}
+         \cup {[A |-> A, B |-> B, elev |-> 0] : A \in {x \in GridSegs : Mine(h, x)}, B \in GridSegs}
+         \cup {[A |-> A, B |-> B, elev |-> 0] : A \in {x \in Zigzags : Mine(h, x)}, B \in GridSegs \cup Zigzags}
     [] OTHER -> {}
 
 (* C20 generator sanity: every generated pair is in the guaranteed class (no end-point touches,   *)
